@@ -550,13 +550,14 @@ fn c_input(i: &Input, tbl: &[(u64, Vec<u128>, Vec<u8>)]) -> String {
         clist(&tbl.iter().map(|(k, key, v)| format!("({}, {}, {})", k, cnums(key), c_bytes(v))).collect::<Vec<_>>())
     )
 }
-fn bhash(b: &[u8]) -> u64 {
-    let m: u128 = 18446744073709551557;
-    let mut h: u128 = 7;
+fn bhash(b: &[u8]) -> (u128, u128, u128) {
+    let (mut h1, mut h2, mut h3) = (0u128, 0u128, 0u128);
     for x in b {
-        h = (h * 1000003 + *x as u128 + 1) % m;
+        h1 += *x as u128 + 1;
+        h2 += h1;
+        h3 += h2;
     }
-    h as u64
+    (h1, h2, h3)
 }
 fn o_bytes(b: &[u8]) -> O {
     let mut v = vec![];
@@ -574,7 +575,8 @@ fn o_bytes(b: &[u8]) -> O {
         k += n;
     }
     if v.len() > 600 {
-        return O::T(vec![O::L(4096), O::n(b.len() as u64), O::n(bhash(b))]);
+        let h = bhash(b);
+        return O::T(vec![O::L(4096), O::n(b.len() as u64), O::L(h.0), O::L(h.1), O::L(h.2)]);
     }
     O::T(v)
 }
